@@ -84,7 +84,9 @@ def impl(case) -> str:
         from twisted.web import http
         return b"".join(http.toChunk(bytes.fromhex(case["data"]))).hex()
     stream = bytes.fromhex(case["stream"])
-    return "/".join(_one(stream, cuts, case["max"]) for cuts in case["cuts"])
+    res = [_one(stream, cuts, case["max"]) for cuts in case["cuts"]]
+    # delivery patterns that give exactly the first pattern's result are written "="
+    return "/".join(res[:1] + [("=" if r == res[0] else r) for r in res[1:]])
 
 
 # ------------------------------------------------------------------------------------------
@@ -189,6 +191,7 @@ def oracle(case, obs):
     results = obs.split("/")
     if len(results) != len(case["cuts"]):
         return Failure(case, "malformed observation", "log")
+    results = results[:1] + [(results[0] if r == "=" else r) for r in results[1:]]
     zone = ":trailer-limit" if _trailer_zone(stream, maxtr) else ""
     exp = case.get("exp")
     rb, rend = ref_decode(stream, maxtr)
@@ -398,6 +401,36 @@ def _mutation_cases(rng, n):
     return out
 
 
+def _corruption_cases(rng, tier):
+    """single-byte corruption at EVERY framing position of a valid stream (size digits, ';', extension bytes, both
+    bytes of every CRLF: size-line, data-terminating, last-chunk, trailer lines, final), each replaced by every
+    other byte class; delivered whole, at every 2-way cut and byte-wise; outcome decided by the reference decoder"""
+    out = []
+    bases = [
+        # (pieces, is_framing)
+        [(b"3", 1), (b"\r\n", 1), (b"abc", 0), (b"\r\n", 1), (b"0", 1), (b"\r\n", 1), (b"\r\n", 1), (b"Z", 0)],
+        [(b"2;e", 1), (b"\r\n", 1), (b"\r\n", 0), (b"\r\n", 1), (b"1", 1), (b"\r\n", 1), (b"q", 0), (b"\r\n", 1),
+         (b"00", 1), (b"\r\n", 1), (b"T:v", 1), (b"\r\n", 1), (b"\r\n", 1), (b"0\r\n\r\n", 0)],
+    ]
+    classes = [13, 10, 32, 9, ord("0"), ord("a"), ord(";"), 0, 255, ord("X")]
+    for pieces in bases:
+        stream = b"".join(p for p, _ in pieces)
+        pos, framing = 0, []
+        for p, f in pieces:
+            if f:
+                framing += list(range(pos, pos + len(p)))
+            pos += len(p)
+        for i in framing:
+            for r in classes:
+                if r == stream[i] or (tier == "quick" and stream[i] not in (13, 10) and r in (9, ord("a"), 255)):
+                    continue
+                s2 = stream[:i] + bytes([r]) + stream[i + 1:]
+                cl = [[]] + [[j] for j in range(1, len(s2))] + [_bytewise(s2)]
+                maxtr = DEFAULT_MAX
+                out.append(_case(s2, cl, maxtr, "corrupt-crlf" if stream[i] in (13, 10) else "corrupt-framing", None))
+    return out
+
+
 def _soup_cases(rng, n):
     out = []
     for _ in range(n):
@@ -419,6 +452,7 @@ def gen(rng, tier):
     cases += _valid_cases(rng, 4 if q else 60, 0, big=True)
     cases += _limit_cases(rng, 6 if q else 80)
     cases += _mutation_cases(rng, 120 if q else 1500)
+    cases += _corruption_cases(rng, tier)
     cases += _soup_cases(rng, 400 if q else 5000)
     for _ in range(40 if q else 300):
         n = rng.choice([0, 1, 9, 10, 15, 16, 17, 255, 256, 257, 4095, 4096]) if rng.random() < 0.7 else rng.randrange(0, 70000)
@@ -471,6 +505,9 @@ def corpus():
     out.append(_parts_case([b"0x3\r\nabc\r\n"], DEFAULT_MAX, "mut-nonhex", {"body": "", "end": "E"}))
     out.append(_parts_case([b"-3\r\nabc\r\n"], DEFAULT_MAX, "mut-nonhex", {"body": "", "end": "E"}))
     out.append(_parts_case([b"3\r\nabc!!!!"], DEFAULT_MAX, "mut-no-crlf", {"body": b"abc".hex(), "end": "E"}))
+    # CR followed by a non-LF byte after chunk data, the rest well-formed (seeded change C22-E)
+    out.append(_case(b"3\r\nabc\rX0\r\n\r\n", [[], [8], [9], list(range(1, 15))], DEFAULT_MAX, "corrupt-crlf",
+                     {"body": b"abc".hex(), "end": "E"}))
     out.append(_parts_case([b"3" + b"0" * 1021 + b"\r", b"\n"], DEFAULT_MAX, "mut-long-line-ok", None))
     out.append(_parts_case([b"3" + b"0" * 1022 + b"\r", b"\n"], DEFAULT_MAX, "mut-long-line", None))
     out.append({"k": "enc", "data": ""})
@@ -535,7 +572,7 @@ def shrink(case):
 def histogram(case, obs):
     if case["k"] == "enc":
         return "toChunk"
-    ends = sorted({r.partition("|")[2][:1] for r in obs.split("/")})
+    ends = sorted({r.partition("|")[2][:1] for r in obs.split("/") if r != "="})
     return case["cls"] + " -> " + "".join(ends)
 
 
@@ -554,7 +591,9 @@ SPEC = Spec(
          "(streams <= 60 B quick / 120 B thorough), byte-wise and at random multi-splits; every proper prefix "
          "(truncation); trailer sections at limit-3..+3 for lowered limits with the split at every offset (thorough: "
          "also the real 65536 limit); mutations (non-hex size, empty size, chunk not followed by CRLF, disallowed "
-         "extension byte, size line of 1022-1030 bytes); random byte soup over the grammar's alphabet; toChunk on "
+         "extension byte, size line of 1022-1030 bytes); single-byte corruption of EVERY framing byte of two valid streams "
+         "(size digits, ';', extension, both bytes of every CRLF incl. trailer and final CRLF) by each of 10 byte classes, "
+         "at every 2-way cut and byte-wise, judged by the reference decoder; random byte soup over the grammar's alphabet; toChunk on "
          "lengths around powers of 16.  non-trivial = decoder case with a stream of > 4 bytes; distinct by "
          "(case, observation)",
     trusted=["hand-written model coq/C22/Model.v of _ChunkedTransferDecoder (tied by this correspondence run); "
